@@ -386,7 +386,7 @@ class Sweep:
                 newly, cached, shallow = [], [], []
                 # quick tier: besides the strata the committed hint file lists as relevant for this
                 # transformation, a few seeded other strata are tried
-                extra_strata = set(rng.sample(sorted(strata), min(len(strata), 2))) if self.use_hint else set()
+                extra_strata = set(rng.sample(sorted(strata), min(len(strata), 1))) if self.use_hint else set()
                 for s, members in sorted(strata.items()):
                     key = (name, label, s)
                     if full:
@@ -429,12 +429,32 @@ class Sweep:
                             self.rel[key] = "shallow"
                     else:
                         rel2.append((tg, ex))
+                # targets this transformation accepts with default options (validation passes):
+                # where an option value that is set but falsy / of the wrong type can slip through
+                # validation and be refused later
+                acc = [(tg, ex) for tg, ex, stt, _ in newly if stt == "accepted"]
+                acc += [(tg, ex) for tg, ex in cached
+                        if any(self.rel.get((name, label, s0)) == "accepted" for s0, mem in strata.items() if tg in mem)]
                 cap = ctx.pick(6, 40) if not grid_full else 10000
                 if len(rel2) > cap:
                     rel2 = [rel2[i] for i in sorted(rng.sample(range(len(rel2)), cap))]
                 for tg, ex in rel2:
                     for opts in grid[1:]:
                         self.one(W, prog, cls, label, inst, tg, ex, opts)
+                if acc:
+                    # generic value classes: quick = one accepted target per value (round-robin over
+                    # the accepted targets), thorough = up to 3 accepted targets per value
+                    gg = dyn.generic_grid(cls)
+                    if not (ctx.thorough or grid_full) and W.domain:
+                        # quick, PSy-layer programs: only the set-but-falsy classes
+                        gg = [o for o in gg if not list(o.values())[0]]
+                    for i, opts in enumerate(gg):
+                        if ctx.thorough or grid_full:
+                            picks = [acc[(i + j) % len(acc)] for j in range(min(3, len(acc)))]
+                        else:
+                            picks = [acc[i % len(acc)]]
+                        for tg, ex in picks:
+                            self.one(W, prog, cls, label, inst, tg, ex, opts)
                 nsh = ctx.pick(1, 2) if not grid_full else 6
                 for tg, ex, _, _ in shallow[:nsh]:
                     for opts in grid[1:]:
